@@ -17,7 +17,14 @@ TECHNIQUE = 'Lean 4 proof + exhaustive generated tables re-decided by the kernel
 DESIGN_REF = 'DESIGN.md §3 C20'
 
 def gen_ops(tier, rng):
-    return gens.info_ops(tier, rng)
+    ops = gens.info_ops(tier, rng)
+    # len(cell_to_children(c, b)) is one side of the property: explicit child resolutions incl. 0, -1 and the cell's own
+    for _ in range(60 if tier == 'quick' else 1500):
+        c = random_valid_id(rng, -1, MAXV); r = ref_res(c)
+        b = rng.choice([r, r, r + 1, r + 2, 0, -1, r - 1])
+        if b - r <= 3:
+            ops.append(f'children {c} {b}')
+    return ops
 
 def check(drv, tier, rng, fails):
     a5, ser, ci = drv.a5, drv.ser, drv.ci
